@@ -70,6 +70,13 @@ GNext == ~done /\ (GImport \/ GConstruct \/ GPart \/ GReconfigure \/ GExport \/ 
 \* the options table for the harness (finding keys name the option combination when it is not the default one)
 OptTable == {[kind |-> m.kind, how |-> m.how, dflt |-> Dflt(m.kind, m.how), n |-> Cardinality(Opts(m.kind, m.how))] : m \in Menu}
 ASSUME Mode = "opts" => PrintT(ToJson(OptTable))
+\* the fields an option combination hands to the user (Fresh!Fixed), for the harness: finding keys never name such a field
+FixedTable == {[kind |-> m.kind, how |-> m.how, opt |-> m.opt, fixed |-> SetToSeq(Fixed(m.kind, m.how, m.opt))] : m \in {x \in OptMenu : Fixed(x.kind, x.how, x.opt) # {}}}
+ASSUME Mode = "opts" => PrintT(ToJson(FixedTable))
+\* an option never hands a secret of the property's list to the user: only late padding fields, never a member of an AES-CTR pair
+ASSUME \A m \in OptMenu : Fixed(m.kind, m.how, m.opt) \subseteq Late(m.kind) /\ Fixed(m.kind, m.how, m.opt) \cap ToSet(CtrOf(m.kind)) = {}
+\* the configuration entry points of SB2.1 have every subset of the pinnable secrets
+ASSUME \A k \in {"SB21", "SB21KW"} : \A h \in {x.how : x \in {y \in Menu : y.kind = k /\ y.how \in CfgHows}} : ExOf(k, h) = SUBSET {"dek", "mac", "nonce"}
 ASSUME \A m \in Menu : Dflt(m.kind, m.how) \in Opts(m.kind, m.how) /\ m.opt \in Opts(m.kind, m.how)
 \* the option lane reaches every option combination of every entry point (checked on the plans themselves)
 ASSUME Mode = "opts" => \A key \in SweepKeys : {Pass(key)[i].m.opt : i \in DOMAIN Pass(key)} = Opts(key[1], key[2])
